@@ -13,6 +13,7 @@
 # limitations under the License.
 
 
+import jax.numpy as jnp
 import jax.tree_util as jtu
 
 from genjax._src.core.compiler.interpreters.incremental import (
@@ -45,6 +46,18 @@ from genjax._src.core.typing import (
 
 R = TypeVar("R")
 
+
+def _clamp_index(idx: int | IntArray, n: int) -> int | IntArray:
+    """An out-of-bounds switch index is documented to be clamped to within bounds.
+
+    `jax.lax.switch` clamps, `tree_choose` wraps and `ChoiceMap.switch` compares
+    (or, for a Python `int`, indexes a list), so clamp once and use the result
+    everywhere."""
+    if isinstance(idx, int):
+        return min(max(idx, 0), n - 1)
+    return jnp.clip(idx, 0, n - 1)
+
+
 ################
 # Switch trace #
 ################
@@ -68,7 +81,7 @@ class SwitchTrace(Generic[R], Trace[R]):
         Note:
             This method assumes that the first argument passed to the Switch was the index used for branch selection.
         """
-        return self.get_args()[0]
+        return _clamp_index(self.get_args()[0], len(self.subtraces))
 
     def get_args(self) -> tuple[Any, ...]:
         return self.args
@@ -149,7 +162,7 @@ class Switch(Generic[R], GenerativeFunction[R]):
         return range(len(self.branches))
 
     def __abstract_call__(self, *args) -> R:
-        idx, args = args[0], args[1:]
+        idx, args = _clamp_index(args[0], len(self.branches)), args[1:]
         retvals = list(
             f.__abstract_call__(*f_args) for f, f_args in zip(self.branches, args)
         )
@@ -165,7 +178,7 @@ class Switch(Generic[R], GenerativeFunction[R]):
         key: PRNGKey,
         args: tuple[Any, ...],
     ) -> SwitchTrace[R]:
-        idx, branch_args = args[0], args[1:]
+        idx, branch_args = _clamp_index(args[0], len(self.branches)), args[1:]
         self._check_args_match_branches(branch_args)
 
         fs = list(f.simulate for f in self.branches)
@@ -182,7 +195,7 @@ class Switch(Generic[R], GenerativeFunction[R]):
         sample: ChoiceMap,
         args: tuple[Any, ...],
     ) -> tuple[Score, R]:
-        idx, branch_args = args[0], args[1:]
+        idx, branch_args = _clamp_index(args[0], len(self.branches)), args[1:]
         self._check_args_match_branches(branch_args)
 
         fs = list(f.assess for f in self.branches)
@@ -196,7 +209,7 @@ class Switch(Generic[R], GenerativeFunction[R]):
         constraint: ChoiceMap,
         args: tuple[Any, ...],
     ) -> tuple[SwitchTrace[R], Weight]:
-        idx, branch_args = args[0], args[1:]
+        idx, branch_args = _clamp_index(args[0], len(self.branches)), args[1:]
         self._check_args_match_branches(branch_args)
 
         fs = list(f.generate for f in self.branches)
@@ -270,7 +283,7 @@ class Switch(Generic[R], GenerativeFunction[R]):
         self._check_args_match_branches(branch_argdiffs)
 
         primals = Diff.tree_primal(argdiffs)
-        new_idx = primals[0]
+        new_idx = _clamp_index(primals[0], len(self.branches))
 
         if Diff.tree_tangent(idx_diff) == NoChange:
             # If the index hasn't changed, perform edits on each branch.
